@@ -178,3 +178,54 @@ ASSUMPTIONS = [
     "tie = differential execution of generated scenarios: delivery stream, event stream, pill outcomes, final registration compared",
     "scenarios are single-actor and phase-separated (every external operation is issued at quiescence), which makes batch formation deterministic",
 ]
+
+
+class ProcSched(Part):
+    """the real engine (process.go + inbox.go + registry.go) under the deterministic scheduler:
+    random schedules of a spawn racing with senders, a panic (restart) and a poison"""
+    name = "engine_sched"
+    binary = "hvs"
+    family = "procsched"
+    exec_module = "ProcSchedExec"
+    shard = 150
+    branch_names = {1: "restart", 2: "stopped", 3: "dead_letters", 4: "delivery_to_later_incarnation"}
+
+    def generate(self, rng, tier):
+        walks = 120 if tier == "quick" else 1500
+        cfgs = [
+            dict(senders=[[1, 2], [3]], panic_on=[2], max_restarts=2, poison="poison"),
+            dict(senders=[[1, 2, 3]], panic_on=[1, 3], max_restarts=1, poison=""),
+            dict(senders=[[1], [2], [3]], panic_on=[], max_restarts=0, poison="stop"),
+            dict(senders=[[1, 2], [3, 4]], panic_on=[3], max_restarts=3, poison="", self_poison=2),
+            dict(senders=[[1, 2, 3, 4]], panic_on=[2], max_restarts=0, poison="poison"),
+            dict(senders=[[1, 2], [3, 4], [5]], panic_on=[4], max_restarts=2, poison="stop"),
+        ]
+        return [{"input": dict(c, walks=walks, seed=rng.randrange(1 << 30)), "class": "walks"} for c in cfgs]
+
+    def term_coq(self, inp, t):
+        recvs = C.clist(["(%s, %s)" % (C.cnat(r["inc"]), lmsg_coq(r["msg"])) for r in t["recvs"]])
+        return ("{| c_recvs := %s; c_overlap := %s; c_deadlock := %s; c_stuck := %s; c_terminal := %s; c_sent := %s; "
+                "c_dead := %s; c_restarts_scripted := %s |}") % (
+            recvs, C.cbool(t["overlap"]), C.cbool(t["deadlock"]), C.cbool(t.get("stuck", False)), C.cbool(t["terminal"]),
+            C.clist([C.cnat(n) for n in t["sent"]]), C.clist([C.cnat(n) for n in t["dead"]]), C.cnat(len(inp["panic_on"])))
+
+    def to_coq(self, inp, obs):
+        if "terminals" not in obs:
+            return [self.term_coq(inp, obs["obs"])]
+        return [self.term_coq(inp, t) for t in (obs.get("terminals") or [])]
+
+    def extra_coverage(self, inputs, obs):
+        return dict(schedules_enumerated=sum(o.get("executions", 1) for o in obs),
+                    transitions=sum(o.get("transitions", 0) for o in obs),
+                    distinct_terminal_observations=sum(len(o.get("terminals") or []) for o in obs),
+                    stuck=sum(o.get("stuck", 0) for o in obs))
+
+    def describe_obs(self, obs):
+        if "terminals" not in obs:
+            return obs
+        d = {k: obs.get(k) for k in ("executions", "transitions", "deadlocks", "stuck")}
+        d["terminals"] = (obs.get("terminals") or [])[:2]
+        if obs.get("bad"):
+            b = obs["bad"][0]
+            d["failing_schedule"] = {"choices": b["choices"], "obs": b["obs"]}
+        return d
